@@ -7,11 +7,11 @@ partial def parseTy (s : String) : Ty :=
   if s.startsWith "[]" then .slice (parseTy (s.drop 2).toString)
   else match s with
     | "int" => .int | "i64" => .i64 | "str" => .str | "bool" => .bool | "f64" => .f64 | "err" => .err
-    | "S" => .strct | "I" => .iface | _ => .impl
+    | "S" => .strct | "I" => .iface | "H" => .honly | "L" => .lonly | _ => .impl
 
 partial def showTy : Ty → String
   | .int => "int" | .i64 => "i64" | .str => "str" | .bool => "bool" | .f64 => "f64" | .err => "err"
-  | .strct => "S" | .iface => "I" | .impl => "T" | .slice t => "[]" ++ showTy t
+  | .strct => "S" | .iface => "I" | .impl => "T" | .honly => "H" | .lonly => "L" | .slice t => "[]" ++ showTy t
 
 def parseTys (s : String) : List Ty := if s == "" || s == "-" then [] else (splitOn1 s ',').map parseTy
 
